@@ -32,7 +32,7 @@ Anchors (roles)
                      bound in the fall-back test), the line-search arguments at the three call sites (1, 1/2, 10, 1.0e-4),
                      the zero-row fill 1e-8 (written to `<M>.factor_matrices[n][<rows that sum to 0>, 0]`, in the solver
                      or in a helper it calls), the inexact inner limit 2 and the divisor 100.0
-Doc comments carry the source snippet, never a line number.
+Doc comments carry the expression that was translated (inputs under fixed names), never a line number.
 """
 from __future__ import annotations
 
@@ -374,15 +374,15 @@ def a_mu_kkt(C):
     up = _mu_update(C)
     leaves = {text(up.target_full): "a", text(up.value): "phi"}
     e = tr(value.args[0], leaves, "mu.kkt")
-    shown = ast.unparse(st.stmt)
-    return [f"/-- entry of the array under `np.max` in `{shown[:100]}` -/",
+    shown = plain(fold(value, {text(up.target_full): "M.factor_matrices[n]", text(up.value): "Phi[n]"}))
+    return [f"/-- entry of the array under `np.max` in `kktModeViolations[n] = {shown[:100]}` -/",
             "def kktEntry [Sub α] [One α] (abs : α → α) (minimum : α → α → α) (a phi : α) : α := " + e]
 
 
 def a_mu_update(C):
     up = _mu_update(C)
     e = tr(up.value, {text(up.value): "phi"}, "mu.update")
-    return [f"/-- `{ast.unparse(up.stmt)}`, one entry -/",
+    return ["/-- `M.factor_matrices[n] *= Phi[n]`, one entry -/",
             "def muUpdate [Mul α] (a phi : α) : α := a * " + e]
 
 
@@ -466,101 +466,124 @@ def a_row_grad(C):
 
 
 def _linesearch(C):
-    """-> dict of the parts of tt_linesearch_prowsubprob"""
+    """-> dict of the parts of tt_linesearch_prowsubprob; a part that could not be read is stored as the `Lost` under
+    its name(s), so that one lost anchor does not take the others with it"""
     F = C.F
     R = C.region("tt_linesearch_prowsubprob")
     P = C.params("tt_linesearch_prowsubprob")
     if len(P) != 12:
         raise Lost("ls: the signature of tt_linesearch_prowsubprob changed")
     direction, grad, m_old, step_len, step_red, max_steps, suff, _sp, _dr, _pi, phi_row, _dw = P
-    loops = [L for L in R.loops()]
-    W = one(loops, "ls: the step loop")
-    projs = [e for e in R.entries("aug", deep=True) if isinstance(e.op, ast.Mult) and isinstance(e.value, ast.Compare)]
-    for e in projs:
-        v = e.value
-        if not (len(v.ops) == 1 and isinstance(v.ops[0], ast.Gt)
-                and is_num(v.comparators[0]) and num(v.comparators[0], "") == 0 and text(v.left) == text(e.old)):
-            raise Lost("ls.project: a product with a comparison that is not the projection `v *= v > 0`")
-    inside = [e for e in projs if e.region is W]
-    after = [e for e in projs if e.region is R]
-    if len(projs) != 2 or len(inside) != 1 or len(after) != 1:
-        raise Lost(f"ls.project: expected the projection twice (trial point, fall-back), found {len(projs)}")
-    trial, fb = inside[0], after[0]
-    # the step: the loop-carried value that starts at step_len
-    steps = [n.id for n in ast.walk(trial.old) if isinstance(n, ast.Name) and F.sym(n.id)
-             and F.sym(n.id)["kind"] == "in" and F.sym(n.id)["region"] == W.id]
-    steps = [sid for sid in set(steps) if plain(W.pre_env.get(F.sym(sid)["var"], ast.Name(id="?"))) == step_len]
-    step = one(steps, "ls.trial: the step length")
-    out = {"W": W, "R": R, "P": P}
-    out["trial"] = tr(trial.old, {m_old: "mOld", step: "step", direction: "d"}, "ls.trial")
-    out["fallback"] = tr(fb.old, {m_old: "mOld", phi_row: "phi"}, "ls.fallback")
-    es = {tr(e.value, {text(e.old): "m"}, "ls.project") for e in projs}
-    out["project"] = one(es, "ls.project: the two projections")
-    out["src"] = {"trial": flow.src_of(trial.old, text(trial.old)), "fallback": flow.src_of(fb.old, text(fb.old)),
-                  "project": ast.unparse(trial.stmt)}
-    # the result: (model_new, f_old, f_1, f_new, num_evals)
-    res = R.result
-    if not (isinstance(res, ast.Tuple) and len(res.elts) == 5):
-        raise Lost("ls: the function does not return five values")
-    new_trial, new_fb = text(trial.new), text(fb.new)
-    ok = False
-    r0 = simplify(res.elts[0])
-    if isinstance(r0, ast.IfExp):
-        a, b = r0.body, r0.orelse
-        s = F.sym(b.id) if isinstance(b, ast.Name) else None
-        ok = text(a) == new_fb and bool(s) and s["kind"] == "out" and s["region"] == W.id \
-            and text(W.end(s["var"]) or b) == new_trial
-        out["fb_test"] = r0.test
-    if not ok:
-        raise Lost("ls.project: the returned point is not the projected trial point / the projected fall-back")
-    f_old = res.elts[1]
-    # the acceptance test
-    brk = one(W.breaks, "ls.armijo: break")
-    parts = []
-    for c in brk[0]:
-        c = simplify(c)
-        parts += c.values if isinstance(c, ast.BoolOp) and isinstance(c.op, ast.And) else [c]
-    parts = [simplify(c, assume=[d for d in parts if d is not c]) for c in parts]
-    les = [c for c in parts if isinstance(c, ast.Compare) and len(c.ops) == 1 and isinstance(c.ops[0], ast.LtE)]
-    rest = [c for c in parts if c not in les]
-    arm = one(les, "ls.armijo")
-    if len(rest) != 1 or not (isinstance(rest[0], ast.UnaryOp) and isinstance(rest[0].op, ast.Not)):
-        raise Lost("ls.armijo: the test is not guarded by `not <direction rejected>` alone")
-    rej = rest[0].operand
-    # the rejected branch sets f_new = inf
-    infs = [e for e in W.entries("assign") if plain(e.value) == "np.inf" and len(e.rel_pc()) == 1
-            and text(simplify(e.rel_pc()[0])) == text(rej)]
-    if not infs:
-        raise Lost("ls.armijo: the guard is not the test under which the objective is set to inf")
-    if not (isinstance(rej, ast.BoolOp) and isinstance(rej.op, ast.Or) and len(rej.values) == 2):
-        raise Lost("ls.armijo: the rejection test is not `<gDotd> > 0 or np.sum(<point>) < <tol>`")
-    gpos, small = rej.values
-    ok = (isinstance(gpos, ast.Compare) and len(gpos.ops) == 1 and isinstance(gpos.ops[0], ast.Gt)
-          and is_num(gpos.comparators[0]) and num(gpos.comparators[0], "") == 0
-          and isinstance(small, ast.Compare) and len(small.ops) == 1 and isinstance(small.ops[0], ast.Lt)
-          and is_np_call(small.left, "sum", 1) and text(small.left.args[0]) == new_trial)
-    if not ok:
-        raise Lost("ls.armijo: the rejection test is not `<gDotd> > 0 or np.sum(<point>) < <tol>`")
-    gd = gpos.left
-    out["minDescentTol"] = num(small.comparators[0], "const.minDescentTol")
-    out["armijo"] = tr(arm.comparators[0], {text(f_old): "fOld", suff: "c", text(gd): "gd"}, "ls.armijo")
-    # the fall-back test: (count >= max_steps and f_new > f_old) or np.sum(model_new) < smallStepTol
-    ft = out["fb_test"]
-    sm = None
-    if isinstance(ft, ast.BoolOp) and isinstance(ft.op, ast.Or) and len(ft.values) == 2:
-        c = ft.values[1]
-        if isinstance(c, ast.Compare) and len(c.ops) == 1 and isinstance(c.ops[0], ast.Lt) and is_np_call(c.left, "sum", 1):
-            sm = c.comparators[0]
-    if sm is None:
-        raise Lost("const.smallStepTol: the fall-back test is not `(...) or np.sum(<point>) < <tol>`")
-    out["smallStepTol"] = num(sm, "const.smallStepTol")
+    W = one(list(R.loops()), "ls: the step loop")
+    out = {}
+
+    def part(names, f):
+        try:
+            f()
+        except Lost as e:
+            for n in names:
+                out.setdefault(n, e)
+
+    st = {}
+
+    def points():
+        projs = [e for e in R.entries("aug", deep=True) if isinstance(e.op, ast.Mult) and isinstance(e.value, ast.Compare)]
+        for e in projs:
+            v = e.value
+            if not (len(v.ops) == 1 and isinstance(v.ops[0], ast.Gt)
+                    and is_num(v.comparators[0]) and num(v.comparators[0], "") == 0 and text(v.left) == text(e.old)):
+                raise Lost("ls.project: a product with a comparison that is not the projection `v *= v > 0`")
+        inside = [e for e in projs if e.region is W]
+        after = [e for e in projs if e.region is R]
+        if len(projs) != 2 or len(inside) != 1 or len(after) != 1:
+            raise Lost(f"ls.project: expected the projection twice (trial point, fall-back), found {len(projs)}")
+        trial, fb = inside[0], after[0]
+        # the step: the loop-carried value that starts at step_len
+        steps = [n.id for n in ast.walk(trial.old) if isinstance(n, ast.Name) and F.sym(n.id)
+                 and F.sym(n.id)["kind"] == "in" and F.sym(n.id)["region"] == W.id]
+        steps = [sid for sid in set(steps) if plain(W.pre_env.get(F.sym(sid)["var"], ast.Name(id="?"))) == step_len]
+        step = one(steps, "ls.trial: the step length")
+        t_trial = tr(trial.old, {m_old: "mOld", step: "step", direction: "d"}, "ls.trial")
+        t_fb = tr(fb.old, {m_old: "mOld", phi_row: "phi"}, "ls.fallback")
+        es = {tr(e.value, {text(e.old): "m"}, "ls.project") for e in projs}
+        t_pr = one(es, "ls.project: the two projections")
+        # the result: (model_new, f_old, f_1, f_new, num_evals)
+        res = R.result
+        if not (isinstance(res, ast.Tuple) and len(res.elts) == 5):
+            raise Lost("ls: the function does not return five values")
+        st["new_trial"], new_fb = text(trial.new), text(fb.new)
+        ok = False
+        r0 = simplify(res.elts[0])
+        if isinstance(r0, ast.IfExp):
+            a, b2 = r0.body, r0.orelse
+            s = F.sym(b2.id) if isinstance(b2, ast.Name) else None
+            ok = text(a) == new_fb and bool(s) and s["kind"] == "out" and s["region"] == W.id \
+                and text(W.end(s["var"]) or b2) == st["new_trial"]
+            st["fb_test"] = r0.test
+        if not ok:
+            raise Lost("ls.project: the returned point is not the projected trial point / the projected fall-back")
+        st["f_old"] = res.elts[1]
+        out.update(trial=t_trial, fallback=t_fb, project=t_pr,
+                   src={"trial": text(fold(trial.old, {m_old: "model_old", step: "stepSize", direction: "direction"})),
+                        "fallback": text(fold(fb.old, {m_old: "model_old", phi_row: "phi_row"})),
+                        "project": "model_new *= model_new > 0"})
+
+    def armijo():
+        if "f_old" not in st:
+            raise Lost("ls.armijo: the trial point was not read")
+        brk = one(W.breaks, "ls.armijo: break")
+        parts = []
+        for c in brk[0]:
+            c = simplify(c)
+            parts += c.values if isinstance(c, ast.BoolOp) and isinstance(c.op, ast.And) else [c]
+        parts = [simplify(c, assume=[d for d in parts if d is not c]) for c in parts]
+        les = [c for c in parts if isinstance(c, ast.Compare) and len(c.ops) == 1 and isinstance(c.ops[0], ast.LtE)]
+        rest = [c for c in parts if c not in les]
+        arm = one(les, "ls.armijo")
+        if len(rest) != 1 or not (isinstance(rest[0], ast.UnaryOp) and isinstance(rest[0].op, ast.Not)):
+            raise Lost("ls.armijo: the test is not guarded by `not <direction rejected>` alone")
+        rej = rest[0].operand
+        # the rejected branch sets f_new = inf
+        infs = [e for e in W.entries("assign") if plain(e.value) == "np.inf" and len(e.rel_pc()) == 1
+                and text(simplify(e.rel_pc()[0])) == text(rej)]
+        if not infs:
+            raise Lost("ls.armijo: the guard is not the test under which the objective is set to inf")
+        if not (isinstance(rej, ast.BoolOp) and isinstance(rej.op, ast.Or) and len(rej.values) == 2):
+            raise Lost("ls.armijo: the rejection test is not `<gDotd> > 0 or np.sum(<point>) < <tol>`")
+        gpos, small = rej.values
+        ok = (isinstance(gpos, ast.Compare) and len(gpos.ops) == 1 and isinstance(gpos.ops[0], ast.Gt)
+              and is_num(gpos.comparators[0]) and num(gpos.comparators[0], "") == 0
+              and isinstance(small, ast.Compare) and len(small.ops) == 1 and isinstance(small.ops[0], ast.Lt)
+              and is_np_call(small.left, "sum", 1) and text(small.left.args[0]) == st["new_trial"])
+        if not ok:
+            raise Lost("ls.armijo: the rejection test is not `<gDotd> > 0 or np.sum(<point>) < <tol>`")
+        gd = gpos.left
+        tol = num(small.comparators[0], "const.minDescentTol")
+        out["armijo"] = tr(arm.comparators[0], {text(st["f_old"]): "fOld", suff: "c", text(gd): "gd"}, "ls.armijo")
+        out["minDescentTol"] = tol
+
+    def small_step():
+        # the fall-back test: (count >= max_steps and f_new > f_old) or np.sum(model_new) < smallStepTol
+        ft = st.get("fb_test")
+        sm = None
+        if isinstance(ft, ast.BoolOp) and isinstance(ft.op, ast.Or) and len(ft.values) == 2:
+            c = ft.values[1]
+            if isinstance(c, ast.Compare) and len(c.ops) == 1 and isinstance(c.ops[0], ast.Lt) and is_np_call(c.left, "sum", 1):
+                sm = c.comparators[0]
+        if sm is None:
+            raise Lost("const.smallStepTol: the fall-back test is not `(...) or np.sum(<point>) < <tol>`")
+        out["smallStepTol"] = num(sm, "const.smallStepTol")
+
+    part(["trial", "fallback", "project"], points)
+    part(["armijo", "minDescentTol"], armijo)
+    part(["smallStepTol"], small_step)
     return out
 
 
 _LS = {}
 
 
-def _ls(C):
+def _ls(C, key):
     if id(C) not in _LS:
         _LS.clear()
         try:
@@ -570,19 +593,27 @@ def _ls(C):
     r = _LS[id(C)]
     if isinstance(r, Exception):
         raise r
-    return r
+    v = r.get(key)
+    if v is None:
+        raise Lost(f"ls.{key}: not read")
+    if isinstance(v, Exception):
+        raise v
+    return v
 
 
-def a_linesearch(C):
-    L = _ls(C)
-    return [f"/-- `model_new = {L['src']['trial']}`, one entry -/",
-            "def lsTrial [Add α] [Mul α] (mOld step d : α) : α := " + L["trial"],
-            f"/-- `{L['src']['project']}`, one entry (the comparison yields 1.0 / 0.0) -/",
-            "def project [Mul α] [Zero α] [One α] (gt0 : α → Bool) (m : α) : α := m * " + L["project"],
-            f"/-- `model_new = {L['src']['fallback']}`, one entry -/",
-            "def lsFallback [Mul α] (mOld phi : α) : α := " + L["fallback"],
-            "/-- right-hand side of the sufficient-decrease test `f_new <= (f_old + suff_decr * gDotd)` -/",
-            "def armijoBound [Add α] [Mul α] (fOld c gd : α) : α := " + L["armijo"]]
+def a_ls_points(C):
+    src = _ls(C, "src")
+    return [f"/-- `model_new = {src['trial']}`, one entry -/",
+            "def lsTrial [Add α] [Mul α] (mOld step d : α) : α := " + _ls(C, "trial"),
+            f"/-- `{src['project']}`, one entry (the comparison yields 1.0 / 0.0) -/",
+            "def project [Mul α] [Zero α] [One α] (gt0 : α → Bool) (m : α) : α := m * " + _ls(C, "project"),
+            f"/-- `model_new = {src['fallback']}`, one entry -/",
+            "def lsFallback [Mul α] (mOld phi : α) : α := " + _ls(C, "fallback")]
+
+
+def a_ls_armijo(C):
+    return ["/-- right-hand side of the sufficient-decrease test `f_new <= (f_old + suff_decr * gDotd)` -/",
+            "def armijoBound [Add α] [Mul α] (fOld c gd : α) : α := " + _ls(C, "armijo")]
 
 
 def _calls_of(region, fname, F=None):
@@ -608,9 +639,12 @@ def _calls_of(region, fname, F=None):
     return list(out.values())
 
 
-def a_const_ls_tols(C):
-    L = _ls(C)
-    return [f"def {nm} : Rat := {rat(L[nm])}" for nm in ("minDescentTol", "smallStepTol")]
+def a_const_min_descent(C):
+    return [f"def minDescentTol : Rat := {rat(_ls(C, 'minDescentTol'))}"]
+
+
+def a_const_small_step(C):
+    return [f"def smallStepTol : Rat := {rat(_ls(C, 'smallStepTol'))}"]
 
 
 def a_const_ls_args(C):
@@ -713,8 +747,8 @@ def a_const_header(C):
 
 #: (anchor, followed by an empty line in the generated file)
 ANCHORS = [(a_loglik_normalize, True), (a_loglik_sparse, True), (a_loglik_dense, True), (a_mu_kkt, True),
-           (a_mu_update, True), (a_row_kkt, True), (a_row_grad, True), (a_linesearch, True), (a_const_header, False),
-           (a_const_ls_tols, False), (a_const_ls_args, False), (a_const_zero_fill, False),
+           (a_mu_update, True), (a_row_kkt, True), (a_row_grad, True), (a_ls_points, False), (a_ls_armijo, True), (a_const_header, False),
+           (a_const_min_descent, False), (a_const_small_step, False), (a_const_ls_args, False), (a_const_zero_fill, False),
            (a_const_inexact_inner, False), (a_const_inexact_div, False)]
 
 HEADER = """/-
@@ -746,6 +780,7 @@ def build():
             lost.append(f"{a.__name__[2:]}: function {e} not found")
         except Exception as e:  # noqa: BLE001
             lost.append(f"{a.__name__[2:]}: {type(e).__name__}: {e}")
+    lost = list(dict.fromkeys(lost))
     text_ = HEADER + "\n" + "\n".join(body) + "\nend Pyttb.CpApr.Gen\n"
     return text_, lost, {"anchors": len(ANCHORS), "inlined_helpers": list(C.F.inlined)}
 
